@@ -106,6 +106,34 @@ def make_store(cfg, rec):
     return RS(inner, rec)
 
 
+def run_other_process(payload, act):
+    """Another process works on the same store while this one stays alive: its own copy of the package (possibly
+    edited code) under <root>_sub, the same store configuration.  Returns the list of its per-action results."""
+    import shutil
+    import subprocess
+    sys.path.insert(0, os.path.dirname(os.path.abspath(__file__)))
+    import progs
+    sub_root = payload["root"].rstrip("/") + "_sub"
+    shutil.rmtree(sub_root, ignore_errors=True)
+    os.makedirs(sub_root)
+    prog = act["prog"]
+    prog["root"] = tuple(prog["root"])
+    for m in prog["modules"].values():
+        for f in m["funcs"]:
+            for st in f["stmts"]:
+                if "callee" in st:
+                    st["callee"] = tuple(st["callee"])
+    progs.write_package(prog, sub_root)
+    sub = dict(payload, root=sub_root, pkg=prog["pkg"], actions=act["actions"])
+    sub.pop("gate", None)
+    p = subprocess.run([sys.executable, os.path.abspath(__file__)], input=json.dumps(sub), stdout=subprocess.PIPE, stderr=subprocess.STDOUT,
+                       text=True, timeout=600)
+    lines = [l for l in p.stdout.splitlines() if l.startswith("@@RESULT@@")]
+    if not lines:
+        raise RuntimeError("other process failed: " + p.stdout[-1500:])
+    return json.loads(lines[-1][len("@@RESULT@@"):])
+
+
 def install_fake_dds(kept_file):
     """dds-free reference: keep = call, load = value most recently kept, data_function = call + remember."""
     import functools
@@ -121,6 +149,12 @@ def install_fake_dds(kept_file):
 
     def save():
         pickle.dump(kept, open(kept_file, "wb"))
+
+    def reload_kept():
+        if os.path.exists(kept_file):
+            kept.clear()
+            kept.update(pickle.load(open(kept_file, "rb")))
+    fake._reload = reload_kept
 
     def keep(path, fun, *a, **k):
         fun = getattr(fun, "__wrapped__", fun)
@@ -204,6 +238,10 @@ def main_nodds(payload):
                 res["out"] = "ok:N"
             elif act["a"] in ("load", "rawfile"):
                 res["out"] = "ok:" + canon(fake.load(act["path"]))
+            elif act["a"] == "subprocess":
+                res["sub"] = run_other_process(payload, act)
+                fake._reload()
+                res["out"] = "ok:N"
         except BaseException as e:  # noqa
             if type(e).__name__ == "DDSException":
                 res["out"] = "dds:NONE"
@@ -301,6 +339,9 @@ def main():
                     for n in [n for n, o in list(vars(mod).items()) if callable(o) and getattr(o, "__module__", None) == mod.__name__ and n not in keep_names]:
                         delattr(mod, n)
                     importlib.reload(mod)
+                res["out"] = "ok:N"
+            elif a == "subprocess":
+                res["sub"] = run_other_process(payload, act)
                 res["out"] = "ok:N"
             elif a == "load":
                 res["out"] = "ok:" + canon(dds.load(act["path"]))
